@@ -144,6 +144,9 @@ def spatialStep (st : Option (Scene Float)) (tok : List String) : Option (Option
       | ["setstr", tid, s, tw] => do
           let tid ← nat? tid; let s ← f32? s; let tw ← parseTween tw
           pure (some (mapTrack sc tid (fun t => { t with cmdStr := some (.fixed s, tw) })), "ok")
+      | ["setvol", tid, v, tw] => do
+          let tid ← nat? tid; let v ← parseVal32 v; let tw ← parseTween tw
+          pure (some (mapTrack sc tid (fun t => { t with cmdVol := some (v, tw) })), "ok")
       | ["lpos", lid, p, tw] => do
           let lid ← nat? lid; let p ← parseVec3 p; let tw ← parseTween tw
           pure (some (mapListener sc lid (fun l => { l with cmdPos := some (.fixed p, tw) })), "ok")
